@@ -56,7 +56,10 @@ CFG = dict(
                "cases; at the binary64 dictionary the run executes: linspace never panics and has exactly n elements, range "
                "is a capacity-overflow panic or count elements. Still open at binary64: that the count equals the number of "
                "progression terms before end, and end-point accuracy of linspace (proved over Q; compared by the run). "
-               "The model is tied to the code by an exhaustive small-scope differential run through the public API.",
+               "The model is tied to the code by an exhaustive small-scope differential run through the public API. "
+               "Second, static tie (translator): the exhaustion test / increment / element formula start + step * i of Linspace::next and next_back, size_hint, the n > 1 / (b - a) / (n - 1) step of linspace, the emptiness guard of range (operator per sign of step), its count expression (span / step, ceil, remainder, the + 1 adjustment with its four operators) and the defaults of Vec1Create::range / linspace are re-extracted from linspace.rs / create.rs on every run and Proofs/SrcTablesMapGen.v re-proves, for every Number dictionary, argument and iterator state, that Model/Create.v uses exactly those (src_ls_next_conforms, src_ls_next_back_conforms, src_ls_size_hint_conforms, src_linspace_new_conforms, src_range_new_conforms, src_create_range_conforms, src_create_linspace_conforms).",
+    src_tables=True,   # tools/gen_tables.py (+ gen_tables_map.py): decision tables regenerated from the Rust source on every run
+    src_tables_proofs=["Proofs/SrcTablesMapGen.vo"],
     level_note="Trusted: Coq kernel; the hand-written model; std's FromIterator / Array1::from_iter (modelled as "
                "the identity) and std's short-circuiting collect into Result; IEEE rounding (the float theorems "
                "are stated over Q, the binary64 instance of the same model is only executed); the harness and "
